@@ -69,7 +69,12 @@ def check_anylayout(ctx, rep, tier):
                     if len(a) != 4:
                         problems.append('wrong number of arguments')
                     else:
-                        if not (a[0][0] == 'ref' and a[0][1] == cellname and tuple(a[0][2]) == (('d', v), ('f', 0))):
+                        payload_adt = ctx.prog.adt(pty)
+                        is_unit = payload_adt['kind'] == 'struct' and not payload_adt['variants'][0]['fields']
+                        rcv_ok = a[0][0] == 'ref' and a[0][1] == cellname and tuple(a[0][2]) == (('d', v), ('f', 0))
+                        if not rcv_ok and is_unit and a[0][0] == 'ref' and len(a[0]) > 3 and a[0][3] == ('adt', pty, 0, ()):
+                            rcv_ok = True   # a zero-sized unit layout has a single value: any instance is the wrapped one
+                        if not rcv_ok:
                             problems.append('receiver is not the wrapped value but %s' % term_str(a[0][:3]))
                         if a[1] != ('a', 'keycode', 'E:KeyCode'):
                             problems.append('key code is altered before delegation: %s' % term_str(a[1]))
@@ -323,7 +328,7 @@ def check_keyboard(ctx, rep, tier):
             wiring(name, why is None, why or '', lf)
             untouched(eng, lf, init, touched, name, '')
     # ---- the stages themselves cannot reach beyond their own state ----------
-    statics = [s for s in ctx.facts['skipped_mir_keys'] if 'Static' in s['kind']]
+    statics = [s['path'] for s in ctx.facts.get('statics', []) if s.get('mutable') or not s.get('freeze', False)]
     unsafe_fns = [f['path'] for f in ctx.facts['fns'] if f['unsafe']]
     unsafe_calls = []
     for f in ctx.facts['fns']:
